@@ -18,6 +18,7 @@ from typing import Any, Dict, List, Optional, Sequence, Tuple
 from ..consteval import CallVal, ConstEval, EnumVal, Sym, enum_members, is_const
 from ..core import (AnalysisError, ClassInfo, FuncInfo, always_exits, ancestors, ap, atoms, call_attr, calls, conditions,
                     enclosing_stmt, facts, find_calls, is_none_test, kw, norm, parent, src, stores, walk)
+from ..cfg import CFG
 from ..tzlint import site_key, tz_sites
 from .common import assigned_value, class_methods_reachable, fmt_count, linform
 
@@ -30,6 +31,7 @@ TRANSFER = "hippolyzer/lib/base/transfer_manager.py"
 ANIM = "hippolyzer/lib/base/llanim.py"
 TYPES = "hippolyzer/lib/base/message/msgtypes.py"
 MESH = "hippolyzer/lib/base/mesh.py"
+MSGHANDLER = "hippolyzer/lib/base/message/message_handler.py"
 
 
 # --------------------------------------------------------------------------- class hierarchy helpers
@@ -424,6 +426,24 @@ class _Chains:
     def __init__(self, repo, fi: FuncInfo, val_name: str):
         self.repo, self.fi, self.val = repo, fi, val_name
         self.ev = ConstEval(repo, fi.module)
+        # the value parameter re-bound once from itself (`val = val.partition("|")[0].strip()`): later reads of
+        # the name stand for that chain applied to the original value
+        self.prefix: Optional[list] = None
+        self.rebind = None
+        self._in_prefix = False
+        rb = [st for st in stores(fi.node, into_defs=False) if st.path == val_name]
+        if len(rb) == 1 and rb[0].kind == "assign" and rb[0].value is not None:
+            self._in_prefix = True
+            try:
+                self.prefix = self.chain(rb[0].value)
+            finally:
+                self._in_prefix = False
+            if self.prefix is None:
+                raise AnalysisError(f"C20.R2: {fi.qual}: `{norm(rb[0].node)}` re-binds the value to something that is "
+                                    f"not a chain of operations on it (extend C20.R2)")
+            self.rebind = rb[0].node
+        elif rb:
+            raise AnalysisError(f"C20.R2: {fi.qual}: the value parameter `{val_name}` is re-bound {len(rb)} times (extend C20.R2)")
 
     def _helper_chain(self, call: ast.Call, depth) -> Optional[list]:
         """The call is a one-argument helper of the same module / class whose body is itself a chain of
@@ -452,7 +472,7 @@ class _Chains:
             return None
         if isinstance(e, ast.Name):
             if e.id == self.val:
-                return []
+                return [] if self.prefix is None or self._in_prefix else list(self.prefix)
             vals = assigned_value(self.fi.node, e.id)
             if len(vals) == 1:
                 return self.chain(vals[0], depth + 1)
@@ -511,20 +531,45 @@ class _Chains:
         return None
 
 
+_SHORTCUTS: Dict[str, list] = {}
+
+
+def _cv_expr(repo, fi: FuncInfo, node):
+    """(True, value) for an expression over literals, module constants and the class's own constants."""
+    if isinstance(node, ast.Attribute) and isinstance(node.value, ast.Name) and fi.cls is not None \
+            and node.value.id in ("cls", "self", fi.cls.name):
+        v = _class_const(repo, fi.cls, node.attr)
+        return (v is not None), v
+    if isinstance(node, ast.BinOp) and isinstance(node.op, ast.Add):
+        (ok1, a), (ok2, b) = _cv_expr(repo, fi, node.left), _cv_expr(repo, fi, node.right)
+        if ok1 and ok2 and type(a) is type(b):
+            return True, a + b
+        return False, None
+    v = ConstEval(repo, fi.module).ev(node)
+    return (True, _plain(v)) if is_const(v) else (False, None)
+
+
 def _branches(repo, fi: FuncInfo) -> Tuple[List[Tuple[list, list]], Optional[str]]:
     """[(flavour facts, chain)] per return statement of a codec method, and the flavour parameter.
-    Returns guarded by `isinstance(val, T)` / `val is None` must be pass-throughs and are skipped."""
+    Returns guarded by `isinstance(val, T)` must be pass-throughs and are skipped.  A return of a *constant* under a
+    test of the value (`if val is None: return C`) is a shortcut: recorded in _SHORTCUTS[fi.full] as
+    (return node, [(kind, const, polarity)], constant) and checked separately; the complementary test on the main
+    return is then not a guard of the codec."""
     params = _first_params(fi)[1:]
     if not params:
         raise AnalysisError(f"C20.R2: {fi.qual} has no value parameter")
     val, flav = params[0], (params[1] if len(params) > 1 else None)
     ch = _Chains(repo, fi, val)
     out = []
+    shortcuts = _SHORTCUTS.setdefault(fi.full, [])
+    del shortcuts[:]
     rets = [n for n in walk(fi.node) if isinstance(n, ast.Return)]
     if not rets:
         raise AnalysisError(f"C20.R2: {fi.qual} never returns a value")
     for r in rets:
-        ffacts, typed = [], False
+        if ch.rebind is not None and not _precedes(ch.rebind, r):
+            raise AnalysisError(f"C20.R2: {fi.qual}: `{norm(r)}` does not follow the re-binding of `{val}` (extend C20.R2)")
+        ffacts, typed, vguards = [], False, []
         for e, pol in facts(r, fi.node):
             if isinstance(e, ast.Compare) and len(e.ops) == 1 and isinstance(e.ops[0], (ast.Eq, ast.NotEq)):
                 sides = [e.left, e.comparators[0]]
@@ -533,16 +578,29 @@ def _branches(repo, fi: FuncInfo) -> Tuple[List[Tuple[list, list]], Optional[str
                 if flav is not None and flav in names and len(consts) == 1:
                     ffacts.append((consts[0], pol == isinstance(e.ops[0], ast.Eq)))
                     continue
+                if val in names:
+                    okc, cst = _cv_expr(repo, fi, sides[1 - names.index(val)])
+                    if okc:
+                        vguards.append(("eq", cst, pol == isinstance(e.ops[0], ast.Eq)))
+                        continue
             if isinstance(e, ast.Call) and ap(e.func) == "isinstance" and e.args and ap(e.args[0]) == val:
                 typed = typed or pol
                 continue
             nt = is_none_test(e)
             if nt and nt[0] == val:
-                typed = typed or (pol == nt[1])
+                vguards.append(("none", None, pol == nt[1]))
+                continue
+            if ap(e) == val:
+                vguards.append(("truthy", None, pol))
                 continue
             raise AnalysisError(f"C20.R2: {fi.qual}: unsupported guard `{norm(e)}` around a return (extend C20.R2)")
         c = ch.chain(r.value) if r.value is not None else None
-        if typed:
+        mentions_val = r.value is not None and val in {n.id for n in ast.walk(r.value) if isinstance(n, ast.Name)}
+        okc, cst = _cv_expr(repo, fi, r.value) if (r.value is not None and not mentions_val) else (r.value is None, None)
+        if okc and not mentions_val and vguards:
+            shortcuts.append((r, vguards, cst))
+            continue
+        if typed or (c == [] and any(k == "none" and p for k, _, p in vguards)):
             if c != [] and not (isinstance(r.value, ast.Constant) and r.value.value is None):
                 raise AnalysisError(f"C20.R2: {fi.qual}: type-guarded return `{norm(r)}` is not a pass-through")
             continue
@@ -551,6 +609,22 @@ def _branches(repo, fi: FuncInfo) -> Tuple[List[Tuple[list, list]], Optional[str
                                 f"(read it, then extend C20.R2)")
         out.append((ffacts, c))
     return out, flav
+
+
+def _apply_ops(v, ops):
+    """Concretely apply simple string/bytes operations of a chain to a constant; None when unsupported."""
+    for kind, name, args in ops:
+        try:
+            if kind == "meth" and name in ("partition", "split", "rsplit", "strip", "lstrip", "rstrip", "encode", "decode",
+                                           "lower", "upper") and all(isinstance(a, (str, bytes, int)) for a in args):
+                v = getattr(v, name)(*args)
+            elif kind == "idx":
+                v = v[args[0]]
+            else:
+                return None
+        except Exception:
+            return None
+    return v
 
 
 def _for_flavour(fi, branches, f) -> list:
@@ -580,6 +654,9 @@ def _step(rs: list, ds: list):
     def is_idx(op, i):
         return op is not None and op[0] == "idx" and op[2] == (i,)
 
+    if d0 and d0[0] == "meth" and d0[1] in ("strip", "rstrip", "lstrip") and not d0[2] \
+            and any(op[0] == "call" and ".parse_" in op[1] for op in ds[1:]):
+        return 0, 1, True, ""       # surrounding whitespace removed before a whitespace-tolerant parser
     if r0 and r0[0] == "suffix":
         s = r0[2][0]
         if d0 and d0[0] == "meth" and d0[1] in ("partition", "split") and d0[2] and is_idx(d1, 0):
@@ -681,6 +758,33 @@ def _inverse(ser: list, des: list) -> Tuple[bool, str]:
     return ok, "; ".join(msgs)
 
 
+def _shortcut_obligations(ctx, ci: ClassInfo, wr: FuncInfo, rd: FuncInfo):
+    """Constant shortcuts of a codec pair: the writer may emit a constant only for ONE model value (an absence /
+    equality test - a truthiness test maps every falsy value to the same text), and a reader shortcut comparing
+    against a constant must recognise exactly what the writer's shortcut emits and return that value."""
+    repo = ctx.repo
+    wsc, rsc = _SHORTCUTS.get(wr.full, []), _SHORTCUTS.get(rd.full, [])
+    for i, (r, vguards, cst) in enumerate(wsc):
+        single = any((k == "none" and p) or (k == "eq" and p) for k, _, p in vguards)
+        tag = "" if i == 0 else f" #{i + 1}"
+        _ob(ctx, "C20.R2", f"{ci.name}.{wr.name}: constant shortcut{tag} is taken for a single value", single, ctx.w(wr, r),
+            f"`{norm(r)}` is emitted under {[(k, p) for k, _, p in vguards]}: every value satisfying that test (e.g. "
+            f"{{}}, [], '', 0 as well as None for a falsiness test) is written as the same text and parses back as one value")
+        if not single:
+            continue
+        model_val = next((c for k, c, p in vguards if p and k in ("none", "eq")), None)
+        pre = _Chains(repo, rd, _first_params(rd)[1]).prefix or []
+        seen = _apply_ops(cst, pre) if isinstance(cst, (str, bytes)) else None
+        for rr, rguards, rconst in rsc:
+            cmpc = next((c for k, c, p in rguards if k == "eq" and p), None)
+            if cmpc is None or seen is None or type(cmpc) is not type(seen):
+                continue
+            _ob(ctx, "C20.R2", f"{ci.name}: reader shortcut recognises the writer's shortcut text and restores its value",
+                cmpc == seen and rconst == model_val, ctx.w(rd, rr),
+                f"writer emits {cst!r} (seen by the reader as {seen!r}) for {model_val!r}; reader compares with "
+                f"{cmpc!r} and returns {rconst!r}")
+
+
 def r2(ctx):
     repo = ctx.repo
     ctx.rule("C20.R2", "every SchemaFieldSerializer subclass defines both text directions, its text and LLSD "
@@ -705,6 +809,7 @@ def r2(ctx):
         _ob(ctx, "C20.R2", f"{ci.name}.serialize <-> deserialize are inverse idioms", ok,
                ctx.w(res["serialize"], res["serialize"].node), msg)
         npairs += 1
+        _shortcut_obligations(ctx, ci, res["serialize"], res["deserialize"])
         # LLSD pair per flavour either side distinguishes
         tb, _ = _branches(repo, res["to_llsd"])
         fb, _ = _branches(repo, res["from_llsd"])
@@ -1030,6 +1135,22 @@ def _reader_dispatch(ctx, fi: FuncInfo) -> Dict[str, set]:
             if table is None or not isinstance(table, ast.Name):
                 continue
             lit = repo.module_assign(fi.module, table.id)
+            if isinstance(lit, ast.DictComp) and len(lit.generators) == 1 and not lit.generators[0].ifs \
+                    and isinstance(lit.generators[0].target, ast.Name):
+                # {<cls>.ATTR: <cls> for <cls> in <module-level tuple of classes>}: expand it row by row
+                g = lit.generators[0]
+                src_t = repo.module_assign(fi.module, g.iter.id) if isinstance(g.iter, ast.Name) else g.iter
+                var = g.target.id
+                if isinstance(src_t, (ast.Tuple, ast.List)) and ap(lit.value) == var and isinstance(lit.key, ast.Attribute) \
+                        and ap(lit.key.value) == var:
+                    for el in src_t.elts:
+                        ec = repo.resolve_class(ap(el) or "", fi.module)
+                        kv = _class_const(repo, ec, lit.key.attr) if ec is not None else None
+                        if not isinstance(kv, str):
+                            raise AnalysisError(f"C20.R3: dispatch table `{table.id}`: {norm(el)}.{lit.key.attr} is not a "
+                                                f"string constant")
+                        disp.setdefault(kv, set()).add(ec.name)
+                    continue
             if not isinstance(lit, ast.Dict):
                 raise AnalysisError(f"C20.R3: {fi.qual} dispatches through `{table.id}`, which is not a module-level "
                                     f"dict literal (re-read, extend C20.R3)")
@@ -1256,6 +1377,19 @@ def r4(ctx):
     _ob(ctx, "C20.R4", "Xfer length prefix: receiver reads TYPE_SIZES[type] bytes", upper == width, ctx.w(uf, uc),
            f"reads {upper!r} bytes for {utype} whose wire width is {width}")
     data_var = ap(arg.value)
+    usite = None
+    if uf is not recv:
+        # the prefix is parsed in a helper: follow the helper's parameter back to the handler's own variable
+        sites = [c for c in find_calls(recv.node, uf.name)]
+        ctx.require(len(sites) == 1, f"C20.R4: {uf.qual} is called {len(sites)} times from {recv.qual} (re-read)")
+        usite = sites[0]
+        hp = _first_params(uf)
+        if isinstance(usite.func, ast.Attribute) and not any((ap(d) or "").split(".")[-1] == "staticmethod"
+                                                             for d in uf.node.decorator_list):
+            hp = hp[1:]
+        ctx.require(data_var in hp and hp.index(data_var) < len(usite.args),
+                    f"C20.R4: cannot map `{data_var}` of {uf.qual} to an argument of its call (re-read)")
+        data_var = ap(usite.args[hp.index(data_var)])
 
     # the stored chunk
     cst = _chunk_stores(recv)
@@ -1303,7 +1437,8 @@ def r4(ctx):
             f"strip additionally depends on {extra}: a packet 0 for which that does not hold (e.g. a resend) "
             f"is stored with its length prefix"))
     # the prefix read is also only on packet 0
-    f_u = [(e, p) for e, p in facts(uc, uf.node)] if uf is recv else None
+    f_u = [(e, p) for e, p in facts(uc, uf.node)] if uf is recv else \
+        [(e, p) for e, p in facts(usite, recv.node)] if usite is not None else None
     if f_u is not None:
         _ob(ctx, "C20.R4", "Xfer length prefix is only read from packet 0",
                any(_is_zero_test(recv.node, e, p, key_expr) for e, p in f_u), ctx.w(recv, uc))
@@ -1369,7 +1504,6 @@ def _sender_chunking(ctx, send: FuncInfo, send_fns, pf: FuncInfo, pc: ast.Call):
     """One chunk size (take == advance), and the chunking ranges over the *prefixed* buffer: nothing that
     controls which chunks are cut may be derived from the payload before the length prefix was prepended."""
     repo = ctx.repo
-    ev = ConstEval(repo, send.module)
     P = enclosing_stmt(pc)
     ctx.require(pf is send and isinstance(P, ast.Assign) and len(P.targets) == 1 and isinstance(P.targets[0], ast.Name)
                 and isinstance(P.value, ast.BinOp) and isinstance(P.value.op, ast.Add)
@@ -1377,66 +1511,115 @@ def _sender_chunking(ctx, send: FuncInfo, send_fns, pf: FuncInfo, pc: ast.Call):
                 "C20.R4: sender no longer prepends the packed length to the payload variable in Xfer.__init__ (re-read)")
     V = P.targets[0].id
     fn = send.node
-    css = _chunk_stores(send)
-    ctx.require(css, "C20.R4: sender no longer stores chunks into self.chunks (re-read)")
-    sizes = []          # (description, value) of every take / advance width
-    control: List[ast.AST] = []   # expressions deciding which chunks are cut
-    for cs in css:
-        control.append(cs.target.slice)
+
+    # ---- chunk productions: (context fn node, evaluator, buffer name there, key, value, loop-likes, statement in
+    #      the sender to order against the prefix, expressions of the sender that feed the production)
+    prods = []
+    for cs in _chunk_stores(send):
+        loops = []
         for a in ancestors(cs.node):
             if a is fn:
                 break
-            if isinstance(a, (ast.For, ast.AsyncFor)):
-                control.append(a.iter)
-            elif isinstance(a, ast.While):
-                control.append(a.test)
-        val = _expand(fn, cs.value)
-        if isinstance(val, ast.Subscript) and isinstance(val.slice, ast.Slice) and ap(val.value) == V \
+            if isinstance(a, (ast.For, ast.AsyncFor, ast.While)):
+                loops.append(a)
+        prods.append(dict(fn=fn, ev=ConstEval(repo, send.module), V=V, key=cs.target.slice, val=cs.value, loops=loops,
+                          stmt=cs.node, feeds=[], where=ctx.w(send, cs.node)))
+    bulk = [(st, st.node.args[0] if st.kind == "mutcall" and st.node.args else st.value)
+            for st in stores(fn, into_defs=False)
+            if st.path.endswith(".chunks") and ((st.kind == "mutcall" and st.method == "update") or st.kind == "assign")]
+    for st, src_e in bulk:
+        if src_e is None:
+            continue
+        e = _expand(fn, src_e)
+        cfn, cV, cev, feeds = fn, V, ConstEval(repo, send.module), []
+        if isinstance(e, ast.Call) and not isinstance(e, ast.DictComp):
+            # a helper (module-level function or self./cls. method) that returns the chunk table of its argument
+            g, skip = None, 0
+            if isinstance(e.func, ast.Name):
+                cands = [h for h in repo.funcs.get(e.func.id, []) if h.module is send.module and h.cls is None and h.parent_fn is None]
+                g = cands[0] if len(cands) == 1 else None
+            elif isinstance(e.func, ast.Attribute) and isinstance(e.func.value, ast.Name) and e.func.value.id in ("self", "cls") \
+                    and send.cls is not None:
+                g = _lookup_method(repo, send.cls, e.func.attr)
+                if g is not None and not any((ap(d) or "").split(".")[-1] == "staticmethod" for d in g.node.decorator_list):
+                    skip = 1
+            if g is None:
+                continue        # e.g. `self.chunks = {}`-style initialisation through a call: not a production
+            rets = [r for r in walk(g.node) if isinstance(r, ast.Return) and r.value is not None]
+            params = _first_params(g)[skip:]
+            bound = [params[i] for i, a in enumerate(e.args) if i < len(params) and ap(a) == V]
+            ctx.require(len(rets) == 1 and isinstance(_expand(g.node, rets[0].value), ast.DictComp) and len(bound) == 1,
+                        f"C20.R4: chunk table comes from {g.qual}, which is not a one-argument dict comprehension "
+                        f"over the buffer (re-read, extend C20.R4)")
+            feeds = [a for a in e.args if ap(a) != V] + [k.value for k in e.keywords]
+            cfn, cV, cev, e = g.node, bound[0], ConstEval(repo, g.module), _expand(g.node, rets[0].value)
+        if not isinstance(e, ast.DictComp):
+            continue            # `self.chunks = {}` and the like
+        ctx.require(len(e.generators) == 1, "C20.R4: chunk comprehension with several generators (re-read)")
+        prods.append(dict(fn=cfn, ev=cev, V=cV, key=e.key, val=e.value, loops=[e.generators[0]], stmt=st.node,
+                          feeds=feeds, where=ctx.w(send, st.node)))
+    ctx.require(prods, "C20.R4: sender no longer stores chunks into self.chunks (re-read)")
+
+    sizes = []          # (description, value) of every take / advance width
+    control: List[Tuple[ast.AST, ast.AST]] = []   # (expression deciding which chunks are cut, its function node)
+    for pr in prods:
+        pfn, ev, pV = pr["fn"], pr["ev"], pr["V"]
+        control.append((pr["key"], pfn))
+        for lp in pr["loops"]:
+            control.append((lp.test if isinstance(lp, ast.While) else lp.iter, pfn))
+            for cond in getattr(lp, "ifs", []):
+                control.append((cond, pfn))
+        control.extend((x, fn) for x in pr["feeds"])
+        val = _expand(pfn, pr["val"])
+        if isinstance(val, ast.Subscript) and isinstance(val.slice, ast.Slice) and ap(val.value) == pV \
                 and val.slice.step is None and val.slice.upper is not None:
             lo, hi = val.slice.lower, val.slice.upper
-            control.extend(x for x in (lo, hi) if x is not None)
+            control.extend((x, pfn) for x in (lo, hi) if x is not None)
             if lo is None:
-                sizes.append(("take", _lin(fn, ev, hi)))
-                drops = [st for st in stores(fn, into_defs=False) if st.kind == "assign" and st.path == V
+                sizes.append(("take", _lin(pfn, ev, hi)))
+                drops = [st for st in stores(pfn, into_defs=False) if st.kind == "assign" and st.path == pV
                          and st.node is not P and isinstance(st.value, ast.Subscript)
-                         and isinstance(st.value.slice, ast.Slice) and ap(st.value.value) == V]
+                         and isinstance(st.value.slice, ast.Slice) and ap(st.value.value) == pV]
                 ctx.require(drops and all(d.value.slice.upper is None and d.value.slice.lower is not None for d in drops),
-                            f"C20.R4: sender takes `{norm(val)}` but never advances `{V}` by a `{V}[n:]` slice (re-read)")
+                            f"C20.R4: sender takes `{norm(val)}` but never advances `{pV}` by a `{pV}[n:]` slice (re-read)")
                 for d in drops:
-                    sizes.append(("advance", _lin(fn, ev, d.value.slice.lower)))
-                    control.append(d.value.slice.lower)
+                    sizes.append(("advance", _lin(pfn, ev, d.value.slice.lower)))
+                    control.append((d.value.slice.lower, pfn))
             else:
-                l_lo, l_hi = _lin(fn, ev, lo), _lin(fn, ev, hi)
+                l_lo, l_hi = _lin(pfn, ev, lo), _lin(pfn, ev, hi)
                 ctx.require(l_lo is not None and l_hi is not None, f"C20.R4: chunk window `{norm(val)}` is not linear (re-read)")
                 width = _nz({k: l_hi.get(k, 0) - l_lo.get(k, 0) for k in set(l_lo) | set(l_hi)})
                 sizes.append(("take", width))
                 syms = [k for k in _nz(l_lo) if k != 1]
                 ctx.require(len(syms) == 1, f"C20.R4: chunk offset `{norm(lo)}` does not depend on one loop variable (re-read)")
                 sym, coeff = syms[0], l_lo[syms[0]]
-                augs = [st for st in stores(fn, into_defs=False) if st.path == sym and st.kind == "augassign"]
-                steps = [x for x in (_range_step(n, sym) for n in walk(fn) if isinstance(n, (ast.For, ast.AsyncFor)))
-                         if x is not None]
+                augs = [st for st in stores(pfn, into_defs=False) if st.path == sym and st.kind == "augassign"]
+                binders = [n for n in walk(pfn) if isinstance(n, (ast.For, ast.AsyncFor))] + \
+                    [g for n in walk(pfn) if isinstance(n, (ast.DictComp, ast.ListComp, ast.SetComp, ast.GeneratorExp))
+                     for g in n.generators]
+                steps = [x for x in (_range_step(n, sym) for n in binders) if x is not None]
                 if augs and all(isinstance(st.node.op, ast.Add) for st in augs):
                     for st in augs:
-                        step = _lin(fn, ev, st.value)
+                        step = _lin(pfn, ev, st.value)
                         sizes.append(("advance", None if step is None else _nz({k: v * coeff for k, v in step.items()})))
                 elif len(steps) == 1:
-                    step = {1: 1} if steps[0] == 1 else _lin(fn, ev, steps[0])
-                    control.append(steps[0]) if steps[0] != 1 else None
+                    step = {1: 1} if steps[0] == 1 else _lin(pfn, ev, steps[0])
+                    if steps[0] != 1:
+                        control.append((steps[0], pfn))
                     sizes.append(("advance", None if step is None else _nz({k: v * coeff for k, v in step.items()})))
                 else:
                     raise AnalysisError(f"C20.R4: cannot tell how the chunk offset `{sym}` advances (re-read)")
         else:
-            tc = [c for a in ancestors(cs.node) if isinstance(a, (ast.For, ast.AsyncFor)) for c in find_calls(a.iter, "to_chunks")]
-            ctx.require(len(tc) == 1 and tc[0].args and ap(tc[0].args[0]) == V,
-                        f"C20.R4: chunk value `{norm(cs.value)}` is not a window of `{V}` (re-read, extend C20.R4)")
-            sizes.append(("take", _lin(fn, ev, tc[0].args[1]) if len(tc[0].args) > 1 else None))
+            tc = [c for lp in pr["loops"] if not isinstance(lp, ast.While) for c in find_calls(lp.iter, "to_chunks")]
+            ctx.require(len(tc) == 1 and tc[0].args and ap(tc[0].args[0]) == pV,
+                        f"C20.R4: chunk value `{norm(pr['val'])}` is not a window of `{pV}` (re-read, extend C20.R4)")
+            sizes.append(("take", _lin(pfn, ev, tc[0].args[1]) if len(tc[0].args) > 1 else None))
     shown = sorted({f"{d}={v}" for d, v in sizes})
     same = all(v is not None for _, v in sizes) and len({repr(sorted(_nz(v).items(), key=repr)) for _, v in sizes}) == 1 \
         and set(_nz(sizes[0][1])) == {1}
-    _ob(ctx, "C20.R4", "Xfer sender takes and advances by one chunk size", same, ctx.w(send, css[0].node),
+    _ob(ctx, "C20.R4", "Xfer sender takes and advances by one chunk size", same, prods[0]["where"],
         f"chunking uses different widths {shown}: bytes are duplicated or lost between chunks")
-    # pre-prefix derived names
+    # pre-prefix derived names (in the sender itself; a helper only sees what the sender hands it)
     tainted: Dict[str, ast.AST] = {}
     changed = True
     while changed:
@@ -1450,8 +1633,8 @@ def _sender_chunking(ctx, send: FuncInfo, send_fns, pf: FuncInfo, pc: ast.Call):
             if from_payload or names & set(tainted):
                 tainted[st.path] = st.node
                 changed = True
-    used = sorted({n.id for e in control for n in ast.walk(e) if isinstance(n, ast.Name) and n.id in tainted})
-    after = all(_precedes(P, cs.node) for cs in css)
+    used = sorted({n.id for e, efn in control if efn is fn for n in ast.walk(e) if isinstance(n, ast.Name) and n.id in tainted})
+    after = all(_precedes(P, pr["stmt"]) for pr in prods)
     if not after:
         why = f"chunks are cut before the length prefix is prepended to `{V}`"
     elif used:
@@ -1460,7 +1643,7 @@ def _sender_chunking(ctx, send: FuncInfo, send_fns, pf: FuncInfo, pc: ast.Call):
                f"push the tail of the payload out of the last chunk")
     else:
         why = ""
-    _ob(ctx, "C20.R4", "Xfer sender chunks the length-prefixed buffer", after and not used, ctx.w(send, css[0].node), why)
+    _ob(ctx, "C20.R4", "Xfer sender chunks the length-prefixed buffer", after and not used, prods[0]["where"], why)
 
 
 def _expected_plus_one(ctx, rule, fi: FuncInfo, key_expr):
@@ -2121,9 +2304,15 @@ def r11(ctx):
     _ob(ctx, "C20.R11", "SegmentSerializer: reader and writer index the same template table", wtab == rtab, ctx.w(rf, rc),
         f"writer uses {wtab}, reader {rtab}")
 
-    def classify(f, c, tab):
+    def classify(f, c, tab, anchor, fns):
         member, extra = False, []
-        for e, pol in facts(c, f.node):
+        fs = facts(c, f.node)
+        if f is not anchor:      # packing / unpacking extracted into a helper: its call site's guards count
+            sites = [x for g in fns if g is not f for x in find_calls(g.node, f.name)]
+            if len(sites) == 1:
+                host = next(g for g in fns if any(x is sites[0] for x in calls(g.node, True)))
+                fs = fs + facts(sites[0], host.node)
+        for e, pol in fs:
             if isinstance(e, ast.Compare) and len(e.ops) == 1 and isinstance(e.ops[0], (ast.In, ast.NotIn)) \
                     and ap(e.comparators[0]) == tab:
                 if isinstance(e.ops[0], ast.In) == pol:
@@ -2133,8 +2322,8 @@ def r11(ctx):
                 continue        # constant, or type guard on the model / wire value: not value dependent
             extra.append(norm(e) if pol else f"not ({norm(e)})")
         return member, extra
-    wm, _ = classify(wf, wc, wtab)
-    rm, rextra = classify(rf, rc, rtab)
+    wm, _ = classify(wf, wc, wtab, wr, class_methods_reachable(repo, wr))
+    rm, rextra = classify(rf, rc, rtab, rd, class_methods_reachable(repo, rd))
     _ob(ctx, "C20.R11", "SegmentSerializer: packing and unpacking are both keyed on template membership", wm and rm,
         ctx.w(rf, rc), f"membership test present: writer {wm}, reader {rm}")
     _ob(ctx, "C20.R11", "SegmentSerializer: reader unpacks every templated field regardless of its wire value", not rextra,
@@ -2228,6 +2417,73 @@ def r13(ctx):
             not bad, h.where, f"{len(bad)} unjustified early return(s)")
 
 
+# =========================================================================== R14
+
+def r14(ctx):
+    repo = ctx.repo
+    ctx.rule("C20.R14", "the subscription the transfer pumps read from is lossless: subscribe_async's queue is unbounded "
+                        "and its handler enqueues every message it is handed, on every normal path")
+    sa = repo.fn("MessageHandler.subscribe_async", MSGHANDLER)
+    # the pumps really go through it
+    users = [f for f in (repo.fn("XferManager._pump_xfer_replies", XFER), repo.fn("TransferManager._pump_transfer_replies", TRANSFER))
+             if find_calls(f.node, "subscribe_async")]
+    ctx.floor("C20.R14", "transfer pumps reading through subscribe_async", len(users), 2)
+    # the handler subscribed for the block: a closure of subscribe_async, or an instance of a same-module callable
+    # class created there (then its __call__ is the handler and the queue lives on the instance)
+    subs = [c for c in calls(sa.node) if call_attr(c) in ("_subscribe_all", "subscribe") and len(c.args) >= 1]
+    ctx.require(subs, "C20.R14: subscribe_async no longer subscribes a handler (re-read)")
+    hnode = subs[0].args[1] if call_attr(subs[0]) == "_subscribe_all" and len(subs[0].args) > 1 else \
+        (kw(subs[0], "handler") or subs[0].args[0])
+    scope_fns: List[FuncInfo] = [sa]
+    w_fixed: Optional[FuncInfo] = None
+    if isinstance(hnode, ast.Name):
+        for v in assigned_value(sa.node, hnode.id):
+            if isinstance(v, ast.Call):
+                hc = repo.resolve_class(ap(v.func) or "", sa.module)
+                if hc is not None and _lookup_method(repo, hc, "__call__") is not None:
+                    w_fixed = _lookup_method(repo, hc, "__call__")
+                    scope_fns = [m for k in _mro(repo, hc) for m in k.methods.values()]
+    queues = [st for f in scope_fns for st in stores(f.node, into_defs=False)
+              if st.kind == "assign" and isinstance(st.value, ast.Call)
+              and (ap(st.value.func) or "").split(".")[-1] in ("Queue", "LifoQueue", "PriorityQueue", "deque")]
+    ctx.require(len(queues) == 1, f"C20.R14: expected one message queue behind subscribe_async, found {len(queues)} (re-read)")
+    q = queues[0]
+    qcall = q.value
+    ev = ConstEval(repo, sa.module)
+    bound = None
+    if (ap(qcall.func) or "").endswith("deque"):
+        bnode = kw(qcall, "maxlen") or (qcall.args[1] if len(qcall.args) > 1 else None)
+    else:
+        bnode = kw(qcall, "maxsize") or (qcall.args[0] if qcall.args else None)
+    if bnode is not None:
+        bv = ev.ev(bnode)
+        bound = bv if is_const(bv) else norm(bnode)
+    unbounded = bnode is None or bound is None or (isinstance(bound, int) and bound <= 0)
+    _ob(ctx, "C20.R14", "subscribe_async queue is unbounded", unbounded, ctx.w(sa, qcall),
+        f"queue is limited to {bound!r} entries: messages matched beyond that are not delivered to the subscriber - a "
+        f"transfer with more outstanding chunks than that never completes")
+    wrappers = [w_fixed] if w_fixed is not None else \
+        [f for f in repo.all_funcs if f.parent_fn is not None and f.parent_fn.full == sa.full
+                and any(isinstance(c.func, ast.Attribute) and ap(c.func.value) == q.path and c.func.attr in ("put_nowait", "put", "append")
+                        for c in calls(f.node))]
+    ctx.require(len(wrappers) == 1, f"C20.R14: expected one enqueueing handler closure in subscribe_async, found {len(wrappers)} (re-read)")
+    w = wrappers[0]
+    cfg = CFG(w.node)
+    puts = set()
+    for c in calls(w.node):
+        if isinstance(c.func, ast.Attribute) and ap(c.func.value) == q.path and c.func.attr in ("put_nowait", "put", "append"):
+            puts |= set(cfg.stmt_nodes_containing(c))
+    reach = cfg.reachable([cfg.entry], avoid=lambda n: n in puts, exc=False)
+    skip = cfg.exit in reach
+    path = None
+    if skip:
+        wp = cfg.witness_path(cfg.entry, lambda n: n is cfg.exit, avoid=lambda n: n in puts, exc=False)
+        path = cfg.describe_path(wp) if wp else None
+    ctx.ob("C20.R14", f"{w.qual}: every handed message is enqueued", not skip, ctx.w(w, w.node),
+           "" if not skip else "a normal path through the handler returns without putting the message on the queue: the "
+                               "subscriber (the transfer pump) never sees that chunk", path)
+
+
 def run(ctx):
     r1(ctx)
     r2(ctx)
@@ -2242,3 +2498,4 @@ def run(ctx):
     r11(ctx)
     r12(ctx)
     r13(ctx)
+    r14(ctx)
